@@ -152,9 +152,11 @@ def check_ops(acc, m0, tag, bad, ops, perms=(), taut_perms=False):
             if storage == 'reversed':
                 # remap() keeps the storage order of atoms and neighbours; a molecule that was BUILT under the other numbering has another one
                 try:
-                    m = m.substructure(list(m)[::-1])
+                    m = _rebuilt_reversed(m)
                 except Exception as e:
-                    bad('substructure raised %s' % type(e).__name__, op=name)
+                    bad('rebuilding the molecule raised %s' % type(e).__name__, op=name)
+                    continue
+                if m is None:
                     continue
             try:
                 OPS[name](m)
@@ -173,6 +175,35 @@ def check_ops(acc, m0, tag, bad, ops, perms=(), taut_perms=False):
 
 
 _S2Z = {}
+
+
+def _rebuilt_reversed(m):
+    """the same molecule (numbers, attributes, labels) built through the public API with atoms and bonds inserted in the opposite order;
+    None when the copy is not faithful (hydrogens of aromatic atoms are not derivable)"""
+    from chython import MoleculeContainer
+    from chython.periodictable import Element
+    new = MoleculeContainer()
+    for n in list(m)[::-1]:
+        a = m.atom(n)
+        new.add_atom(Element.from_symbol(a.atomic_symbol)(a.isotope, charge=a.charge, is_radical=a.is_radical), n)
+    for x, y, bd in list(m.bonds())[::-1]:
+        new.add_bond(x, y, bd.order)
+    st = False
+    for n, a in m.atoms():
+        if a.stereo is not None:
+            new._atoms[n]._stereo = a.stereo
+            st = True
+    for x, y, bd in m.bonds():
+        if bd.stereo is not None:
+            new._bonds[x][y]._stereo = bd.stereo
+            st = True
+    if st:
+        new.flush_cache()
+        new.fix_stereo()
+        new.flush_cache()
+    if [(n, a.implicit_hydrogens) for n, a in sorted(new.atoms())] != [(n, a.implicit_hydrogens) for n, a in sorted(m.atoms())]:
+        return None
+    return new
 
 
 def _rederive_h(m, n):
@@ -298,7 +329,10 @@ def run_corpus(shard):
     rows = [('corpus', s) for s in M.corpus(stride=16 if tier == 'quick' else 2)] + [('metal', s) for s in inputs.organometallics()[::3]]
     rows += [('special', s) for s in ('CC(=O)[O-].[Na+]', 'C[NH3+].[Cl-]', 'OC(=O)CC[NH3+]', '[O-]C(=O)CC[NH3+]', 'CC(C)(N(=O)=O)N(=O)=O', 'O=N(=O)C(C)(C)N(=O)=O', 'C[N+](C)(C)C.[OH-]',
                                      'c1ccccc1O', 'Oc1ccccn1', 'O=C1C=CNC=C1', 'CC(O)=CC', 'CC(=O)CC(=O)C', '[O-]c1c[s+]ccc1', 'CN(C)C=C[S+]=CC', '[Fe](C#O)(C#O)(C#O)(C#O)C#O', 'CS(C)=O', 'C[S+](C)[O-]',
-                                     'CP(C)(C)=O', 'N#[N+][O-]', 'CN=[N+]=[N-]', 'C[N+]#N', 'Cn1cc[n+](C)c1', 'OC1=NC(O)=CC=N1', 'O=c1cc[nH]c(=O)[nH]1', '[CH3]', 'C[O]', 'CC(=O)O[Na]', 'Cl[Mg]C', 'C[Li]')]
+                                     'CP(C)(C)=O', 'N#[N+][O-]', 'CN=[N+]=[N-]', 'C[N+]#N', 'Cn1cc[n+](C)c1', 'OC1=NC(O)=CC=N1', 'O=c1cc[nH]c(=O)[nH]1', '[CH3]', 'C[O]', 'CC(=O)O[Na]', 'Cl[Mg]C', 'C[Li]',
+                                     # two competing sites for one rule (priority between sibling rules must not depend on storage order)
+                                     'CON(C)[CH+]N(C)C', 'CN(C)[CH+]N(C)OC', 'CN(C)[CH+]N(C)N(C)C', 'CN(C)[C+](C)N(C)O', 'C[N+](C)=CN(C)OC', 'CN(C)C=[N+](C)OC', 'C[S+](C)[CH-]C(=O)C[CH-][S+](C)C',
+                                     '[O-][N+](=O)c1ccc(cc1)N(=O)=O', 'CN(=O)=O.C[N+]([O-])=O', 'C[N+]#[C-].[C-]#[N+]C', 'CS(=O)C.C[S+](C)[O-]')]
     rows += [('taut-stereo', s) for s in inputs.tautomer_stereo_family()]
     for i, (fam, s) in enumerate(rows):
         if i % nsh != k:
